@@ -168,6 +168,9 @@ class C03(Plugin):
                 doc = p.parse(data, scripting=case["scripting"])
         except RecursionError as e:
             return [1, "RecursionError"]
+        except MemoryError:
+            p = None        # let go of the parser (and of what it accumulated) before anything else is allocated
+            return [1, "MemoryError at ?: the parse exhausted the worker's address space (a loop that never ends?)"]
         except Exception as e:
             import traceback
             tb = traceback.extract_tb(e.__traceback__)
